@@ -866,6 +866,10 @@ class Evaluator:
             return self.invoke(callee.args[0].obj, callee.args[1], args, kwargs, starkw, e, st, fr)
         if isinstance(callee, App) and callee.op == "cmeth":
             return self.call_method(callee.args[0], callee.args[1].v, args, kwargs, starkw, e, st, fr)
+        if isinstance(callee, App) and callee.op in ("lambda", "localfunc") and not kwargs and starkw is None:
+            v = self._apply_callable(callee, list(args), st, fr, e)
+            if v is not None:
+                return v
         if isinstance(callee, App) and callee.op == "phi" and self._callable_alternatives(callee) and fr.depth < 8:
             # calling `A if c else B`: the call of A when c, the call of B otherwise
             g, ca, cb = callee.args
@@ -874,6 +878,40 @@ class Evaluator:
         t = App("call", [callee] + args + self.kwterms(kwargs) + ([App("starkw", (starkw,))] if starkw else []), e)
         self.record_call(t, st)
         return t
+
+    def _apply_callable(self, f, args, st, fr, node):
+        """Apply a function value to argument terms when it can be done symbolically: a lambda, a local `def` whose body is one
+        return statement, operator.attrgetter / itemgetter, a repository function or class.  None when it cannot."""
+        if isinstance(f, App) and f.op == "lambda" and isinstance(f.node, ast.Lambda):
+            a = f.node.args
+            if a.vararg or a.kwarg or a.kwonlyargs or len(a.args) != len(args):
+                return None
+            sub = State(dict(st.env), st.heap, st.effects, st.conds)
+            for p_, v_ in zip(a.args, args):
+                sub.env[p_.arg] = v_
+            val = self.eval_expr(f.node.body, sub, fr)
+            st.effects[:] = sub.effects
+            return val
+        if isinstance(f, App) and f.op == "localfunc" and isinstance(f.node, ast.FunctionDef):
+            body = [b for b in f.node.body if not (isinstance(b, ast.Expr) and isinstance(b.value, ast.Constant))]
+            a = f.node.args
+            if len(body) != 1 or not isinstance(body[0], ast.Return) or body[0].value is None or a.vararg or a.kwarg or a.kwonlyargs \
+                    or len(a.args) != len(args):
+                return None
+            sub = State(dict(st.env), st.heap, st.effects, st.conds)
+            for p_, v_ in zip(a.args, args):
+                sub.env[p_.arg] = v_
+            val = self.eval_expr(body[0].value, sub, fr)
+            st.effects[:] = sub.effects
+            return val
+        if isinstance(f, App) and f.op == "call:operator.attrgetter" and len(f.args) == 1 and isinstance(f.args[0], Const) and len(args) == 1 \
+                and isinstance(f.args[0].v, str) and "." not in f.args[0].v:
+            return self.attribute(args[0], f.args[0].v, st, fr, node)
+        if isinstance(f, App) and f.op == "call:operator.itemgetter" and len(f.args) == 1 and len(args) == 1:
+            return self.subscript(args[0], f.args[0], node)
+        if (isinstance(f, Ref) and f.kind in ("func", "class")) or (isinstance(f, App) and f.op == "bound"):
+            return self.call_term(f, list(args), {}, None, node, st, fr)
+        return None
 
     def _callable_alternatives(self, t, depth=0) -> bool:
         """Some alternative of a conditional value is a known class / function (the others may be None or unknown)."""
@@ -954,12 +992,29 @@ class Evaluator:
                 return mk_cat([App("byte", (x,), e) if not isinstance(x, Const) else Const(bytes([x.v])) for x in li], e) \
                     if li else Const(b"")
             return App("bytes", args, e)
+        if dotted in ("map", "filter") and len(args) == 2 and not kwargs and starkw is None:
+            # map(f, xs) / filter(f, xs) with a function that can be applied symbolically: the generator (f(x) for x in xs) /
+            # (x for x in xs if f(x))
+            it = args[1]
+            el = App("elem", (it,), e)
+            base_e = len(st.effects)
+            sub = st.copy()
+            applied = el if (dotted == "filter" and args[0] == Const(None)) else self._apply_callable(args[0], [el], sub, fr, e)
+            if applied is not None:
+                inner = list(sub.effects[base_e:])
+                if inner:
+                    st.effects.append(App("eff:loop", (it, App("seq", inner)), e))
+                if dotted == "map":
+                    return App("comp:gen", (applied, it, App("conds", ())), e)
+                return App("comp:gen", (el, it, App("conds", (applied,))), e)
         if dotted in ("list", "tuple") and len(args) <= 1:
             if not args:
                 return Const([] if dotted == "list" else ())
             items = self.iter_items(args[0])
             if items is not None:
                 return mk_list(items, e) if dotted == "list" else mk_tuple(items, e)
+            if dotted == "list" and isinstance(args[0], App) and args[0].op == "comp:gen" and len(args[0].args) == 3:
+                return App("comp:list", args[0].args, e)  # list(<generator expression>) is the list comprehension
             return App(dotted + "of", args, e)
         if dotted == "dict" and not args:
             return mk_dict([(Const(k), v) for k, v in kwargs.items()], e)
